@@ -201,7 +201,7 @@ def check(a):
         skipped_chunks_at_deadline=sum(p.skipped_chunks for p in pools.values()))
     simlib.write_evidence(prop, tier, seed, level, cov, wall, len(violations),
                           ['ASan/UBSan (gcc 12) and the guard arena observe every access to image storage made from instrumented code',
-                           'blocks are 16-byte aligned like malloc; row alignments that misalign the channel type are not requested',
+                           'blocks start at 16k+res (res 0 for 3 of 4 allocations, else 0..15); every row alignment in {0..8,12,16,24,32,64} is requested for every kind, so 16/32-bit channels are also accessed misaligned: the engines are built without -fsanitize=alignment (x86 tolerates it, no property forbids it)',
                            'swap of unequal non-propagating allocators is a precondition violation and is not generated'])
     known_hit.pop('__starved__', None)
     for kid, n in sorted(known_hit.items()):
